@@ -238,7 +238,7 @@ func (d *DFA) SearchAtAnchored(cache *DFACache, haystack []byte, at int) int {
 	// Get ANCHORED start state (requires match to start exactly at 'at')
 	currentState := d.getStartState(cache, haystack, at, true)
 	if currentState == nil {
-		return d.nfaFallback(haystack, at)
+		return d.nfaFallbackAnchored(haystack, at)
 	}
 
 	lastMatch := -1
@@ -274,14 +274,14 @@ func (d *DFA) SearchAtAnchored(cache *DFACache, haystack []byte, at int) int {
 		case InvalidState:
 			currentState = cache.getState(sid)
 			if currentState == nil {
-				return d.nfaFallback(haystack, at)
+				return d.nfaFallbackAnchored(haystack, at)
 			}
 			nextState, err := d.determinize(cache, currentState, b)
 			if err != nil {
 				// A cleared cache invalidates the state this scan was in, and with it the
 				// threads of the match in flight: a restart from a start state would drop
 				// them. Like any other failure of determinize, hand over to the NFA.
-				return d.nfaFallback(haystack, at)
+				return d.nfaFallbackAnchored(haystack, at)
 			}
 			if nextState == nil {
 				return lastMatch
@@ -919,7 +919,7 @@ func (d *DFA) findWithPrefilterAt(cache *DFACache, haystack []byte, startAt int)
 	// Get start state based on look-behind context at candidate position
 	currentState := d.getStartStateForUnanchored(cache, haystack, pos)
 	if currentState == nil {
-		return d.nfaFallback(haystack, 0)
+		return d.nfaFallback(haystack, startAt)
 	}
 
 	// Track last match position for leftmost-longest semantics
@@ -941,7 +941,7 @@ func (d *DFA) findWithPrefilterAt(cache *DFACache, haystack []byte, startAt int)
 				pos = candidate
 				newStart := d.getStartStateForUnanchored(cache, haystack, pos)
 				if newStart == nil {
-					return d.nfaFallback(haystack, 0)
+					return d.nfaFallback(haystack, startAt)
 				}
 				sid = newStart.id
 				ft = cache.flatTrans
@@ -971,14 +971,14 @@ func (d *DFA) findWithPrefilterAt(cache *DFACache, haystack []byte, startAt int)
 		case InvalidState:
 			currentState = cache.getState(sid)
 			if currentState == nil {
-				return d.nfaFallback(haystack, 0)
+				return d.nfaFallback(haystack, startAt)
 			}
 			nextState, err := d.determinize(cache, currentState, haystack[pos])
 			if err != nil {
 				// A cleared cache invalidates the state this scan was in, and with it the
 				// threads of the match in flight: a restart from a start state would drop
 				// them. Like any other failure of determinize, hand over to the NFA.
-				return d.nfaFallback(haystack, 0)
+				return d.nfaFallback(haystack, startAt)
 			}
 			if nextState == nil {
 				// Dead state — prefilter skip
@@ -993,7 +993,7 @@ func (d *DFA) findWithPrefilterAt(cache *DFACache, haystack []byte, startAt int)
 				pos = candidate
 				newStart := d.getStartStateForUnanchored(cache, haystack, pos)
 				if newStart == nil {
-					return d.nfaFallback(haystack, 0)
+					return d.nfaFallback(haystack, startAt)
 				}
 				sid = newStart.id
 				ft = cache.flatTrans
@@ -1017,7 +1017,7 @@ func (d *DFA) findWithPrefilterAt(cache *DFACache, haystack []byte, startAt int)
 			pos = candidate
 			newStart := d.getStartStateForUnanchored(cache, haystack, pos)
 			if newStart == nil {
-				return d.nfaFallback(haystack, 0)
+				return d.nfaFallback(haystack, startAt)
 			}
 			sid = newStart.id
 			ft = cache.flatTrans
@@ -1611,6 +1611,18 @@ func (d *DFA) nfaFallback(haystack []byte, startPos int) int {
 	}
 
 	// PikeVM.SearchAt returns absolute positions
+	return end
+}
+
+// nfaFallbackAnchored is nfaFallback for the anchored scans: the match must
+// begin exactly at 'at'. The NFA search is unanchored and leftmost-first, so a
+// match begins at 'at' exactly when the match it reports does, and then the two
+// are the same match.
+func (d *DFA) nfaFallbackAnchored(haystack []byte, at int) int {
+	start, end, matched := d.pikevm.SearchAt(haystack, at)
+	if !matched || start != at {
+		return -1
+	}
 	return end
 }
 
